@@ -237,6 +237,50 @@ Definition load_dir (r : rawdir) : outcome :=
     end
   end.
 
+(* ------------------------------------------------------------------ skip_list *)
+(* kapture_from_dir(..., skip_list=[types]) : "Skip the load of specified parts".  The loader computes once
+     kapture_loadable_data = {type in KAPTURE_LOADABLE_TYPES | type not in skip_list and path.exists(its file / folder)}
+   and every later step asks only  `type in kapture_loadable_data`  (sensors.txt is read unconditionally: naming
+   kapture.Sensors in the list has no effect).  So a skipped part is treated exactly like a part whose file or
+   folder does not exist — including by the loader's assertions (features while records_camera is skipped,
+   observations while keypoints or points3d are skipped) and by the trajectory filter (rigs skipped: rig ids are
+   not devices any more). *)
+Record skipset := {
+  sk_rigs : bool; sk_traj : bool; sk_rec : rkind -> bool; sk_feat : fkind -> bool;
+  sk_matches : bool; sk_points : bool; sk_obs : bool;
+}.
+Definition skip_none : skipset :=
+  {| sk_rigs := false; sk_traj := false; sk_rec := fun _ => false; sk_feat := fun _ => false;
+     sk_matches := false; sk_points := false; sk_obs := false |}.
+
+(* the class names the skippable parts go by in the code (kapture.<name>) *)
+Definition rec_class (k : rkind) : string :=
+  match k with
+  | RCamera => "RecordsCamera" | RDepth => "RecordsDepth" | RLidar => "RecordsLidar"
+  | RWifi => "RecordsWifi" | RBluetooth => "RecordsBluetooth" | RGnss => "RecordsGnss"
+  | RAccelerometer => "RecordsAccelerometer" | RGyroscope => "RecordsGyroscope" | RMagnetic => "RecordsMagnetic"
+  end.
+Definition feat_class (fk : fkind) : string :=
+  match fk with FKeypoints => "Keypoints" | FDescriptors => "Descriptors" | FGlobal => "GlobalFeatures" end.
+Definition skippable_classes : list string :=
+  ["Rigs"; "Trajectories"] ++ map rec_class all_rkinds ++ map feat_class all_fkinds
+  ++ ["Matches"; "Points3d"; "Observations"].
+
+Definition opt_skip {A} (b : bool) (o : option A) : option A := if b then None else o.
+
+Definition skip_raw (s : skipset) (r : rawdir) : rawdir :=
+  {| r_has_sensors := r_has_sensors r; r_version := r_version r; r_sensors := r_sensors r;
+     r_rigs := opt_skip (sk_rigs s) (r_rigs r);
+     r_traj := opt_skip (sk_traj s) (r_traj r);
+     r_records := fun k => opt_skip (sk_rec s k) (r_records r k);
+     r_feat := fun fk => opt_skip (sk_feat s fk) (r_feat r fk);
+     r_matches := opt_skip (sk_matches s) (r_matches r);
+     r_pairs := r_pairs r;
+     r_points := opt_skip (sk_points s) (r_points r);
+     r_obs := opt_skip (sk_obs s) (r_obs r) |}.
+
+Definition load_dir_skip (s : skipset) (r : rawdir) : outcome := load_dir (skip_raw s r).
+
 (* ------------------------------------------------------------------ declarative vocabulary of the theorems *)
 Definition sensor_ids (d : dataset) : list string := map fst (d_sensors d).
 Definition rig_ids (d : dataset) : list string := match d_rigs d with Some g => fst g | None => [] end.
@@ -297,16 +341,18 @@ Definition exc_name (e : error) : string :=
   | ENewer => "FileNotFoundError" | ECollision => "ValueError"
   end.
 
-(* one case = the raw directory as the harness read it + what kapture_from_dir did with it:
+(* one case = the raw directory as the harness read it (ALL parts, skipped or not) + the skip list + what
+   kapture_from_dir did with it:
    the class of the exception it raised, or the canonicalised loaded dataset *)
 Record case := {
   c_raw : rawdir;
+  c_skip : skipset;               (* the skip_list handed to the loader (skip_none when the argument is left out) *)
   o_exc : option string;
   o_data : dataset;
 }.
 
 Definition check_case (c : case) : bool :=
-  match load_dir (c_raw c) with
+  match load_dir_skip (c_skip c) (c_raw c) with
   | Ok d => match o_exc c with None => dataset_eqb d (o_data c) | Some _ => false end
   | Err e => match o_exc c with Some n => eqb n (exc_name e) | None => false end
   end.
